@@ -13,7 +13,7 @@ TRUSTED_BASE_COMMON = [
 # 32 construction.  A disagreement between model and code counts for a property only in the kinds it speaks about.
 OUT, REC, VOL, HIS, CMP, CON = 1, 2, 4, 8, 16, 32
 _ALL = {
-    "C01": {"suites": ["prog", "wells"], "mask": {"prog": OUT | REC | VOL | CMP | CON}},
+    "C01": {"suites": ["prog", "wells", "save"], "mask": {"prog": OUT | REC | VOL | CMP | CON}},
     "C02": {"suites": ["prog", "evocmd", "ctor", "floatops"], "mask": {"prog": OUT | VOL | CON, "evocmd": OUT | VOL | CON}},
     "C03": {"suites": ["prog", "evocmd", "save"], "mask": {"prog": OUT | REC | VOL | CON, "evocmd": OUT | REC | VOL | CON}},
     "C04": {"suites": ["prog"], "mask": {"prog": OUT | VOL | CON}},
